@@ -171,6 +171,15 @@ def check_reduce(res, U, p, P, W, rep, t, tolname, api, how, expect_restore=None
                 if ov[0] != "ok" or not lib.close_point(lib.to_point(ov[1]), D0.value(u)):
                     res.violation("lossy", f"{where}: value at {u}: {ov[1:]} vs {D0.value(u)}", **tags)
                     return None
+        elif representable is False and tol is not None and W is None and c.weights is None:
+            # float data accepted at the default tolerance: the exact integral of the squared deviation of the numbers
+            # returned may exceed the (absolute) tolerance by round-off only - two orders of magnitude are allowed
+            Dn = rb.denote(V, [lib.to_point(x) for x in c.ctrlpoints], None, q)
+            dev = max(D0.sq_dev(Dn))
+            bound = 200 * tol * max(F(1), U[-1] - U[0])
+            if dev > bound:
+                res.violation("lossy", f"{where}: accepted with integral of squared deviation {float(dev):.3e} > {float(bound):.3e}", **tags)
+                return None
         return c
     D1 = lib.curve_pw(c)
     if representable:
@@ -302,5 +311,15 @@ def run_case(case, res):
             check_reduce(res, U, p, gen, gw, "frac", tt, "none", "method", "direct")
             check_reduce(res, U, p, gen, None, "float", tt, "default", "method", "direct")
             check_reduce(res, U, p, gen, None, "float", tt, "none", "method", "direct")
+            # float data far from the origin and almost representable: an elevated curve moved by 1000 with one control
+            # point off by 1/32 (not representable: refusal, or a result within the absolute tolerance)
+            V1 = reduced_vector(U, p, 1)
+            if V1 is not None:
+                T = sp.basis_change(V1, U, p - 1, p)
+                base = [x[0] for x in sp.apply_matrix(T, [(x,) for x in al.generic_points(len(V1) - p)])]
+                for j in sorted({0, n // 2, n - 1}):
+                    near = [1000 + x + (F(1, 32) if i == j else 0) for i, x in enumerate(base)]
+                    check_reduce(res, U, p, near, None, "float", 1, "default", "method", "near-representable")
+                    check_reduce(res, U, p, near, None, "float", 1, "default", "setter", "near-representable")
             check_reduce(res, U, p, gen, None, "frac", tt, "default", "setter", "direct")
     res.observe(sorted(res.outcomes.items()))
